@@ -2,8 +2,5 @@ import ThriftVerif.Properties.C08
 import ThriftVerif.Facts.ExpectCompile
 #print axioms ThriftVerif.Properties.C08.verdict_fuel_independent
 #print axioms ThriftVerif.Properties.C08.compile_total_partial
-#print axioms ThriftVerif.Properties.C08.const_cycle_diverges
-#print axioms ThriftVerif.Properties.C08.recursive_struct_default_diverges
-#print axioms ThriftVerif.Properties.C08.service_cycle_diverges
-#print axioms ThriftVerif.Properties.C08.self_constant_generator_diverges
+#print axioms ThriftVerif.Properties.C08.former_divergence_rejected
 #print axioms ThriftVerif.Facts.ExpectCompile.sites_covered
